@@ -150,7 +150,7 @@ func (srv *Srv) flush(req *SrvReq) {
 	conn.Lock()
 	r := conn.reqs[tag]
 	if r != nil {
-		req.flushreq = r.flushreq
+		req.flushnext = r.flushreq
 		r.flushreq = req
 	}
 	verifPoint("flush.chained", req, verifB(r != nil), 0)
